@@ -163,8 +163,10 @@ def main(argv=None):
     d = ctl.ask({'op': 'describe', 'tier': tier}, 120)
     describe = d.get('describe', {}) if d.get('ok') else {}
     ctl.close()
-    default_timeout = describe.get('job_timeout', 900 if tier == 'quick' else 3600)
+    default_timeout = int(os.environ.get('MPV_JOB_TIMEOUT') or describe.get('job_timeout', 900 if tier == 'quick' else 3600))
     results = run_jobs(prop, scratch, jobs, seed, a.jobs, default_timeout)
+    if os.environ.get('MPV_DUMP'):
+        json.dump({'jobs': jobs, 'results': results}, open(os.environ['MPV_DUMP'], 'w'), default=str)
     from . import report
     code = report.finish(prop, tier, seed, jobs, results, describe, load_known(), time.time() - t0, scratch,
                          write=not a.no_evidence and not a.only)
